@@ -3,6 +3,8 @@
 package slip
 
 import (
+	"math"
+	"math/big"
 	"strconv"
 )
 
@@ -11,6 +13,55 @@ const HashTableSymbol = Symbol("hash-table")
 
 // HashTable of Objects.
 type HashTable map[Object]Object
+
+// Key returns the object to use as the key of the underlying map for a lookup,
+// store, or removal with key. The test of a hash-table is always eql and
+// numbers with the same value are eql, but the Go map compares a *Bignum,
+// *Ratio, or *LongFloat by address and numbers of different types are never
+// the same map key. A number with an integer value in the fixnum range is
+// replaced by that fixnum. Any other number is replaced by the key of an
+// entry that has the same value if there is one.
+func (obj HashTable) Key(key Object) Object {
+	switch tk := key.(type) {
+	case *Bignum:
+		if (*big.Int)(tk).IsInt64() {
+			return Fixnum((*big.Int)(tk).Int64())
+		}
+	case *Ratio:
+		if (*big.Rat)(tk).IsInt() && (*big.Rat)(tk).Num().IsInt64() {
+			return Fixnum((*big.Rat)(tk).Num().Int64())
+		}
+	case SingleFloat:
+		if n := Fixnum(tk); n.equalFloat(float64(tk)) {
+			return n
+		}
+		if math.IsNaN(float64(tk)) || math.IsInf(float64(tk), 0) {
+			return key
+		}
+	case DoubleFloat:
+		if n := Fixnum(tk); n.equalFloat(float64(tk)) {
+			return n
+		}
+		if math.IsNaN(float64(tk)) || math.IsInf(float64(tk), 0) {
+			return key
+		}
+	case *LongFloat:
+		if i, acc := (*big.Float)(tk).Int64(); acc == big.Exact {
+			return Fixnum(i)
+		}
+	default:
+		return key
+	}
+	if _, has := obj[key]; has {
+		return key
+	}
+	for k := range obj {
+		if _, ok := k.(Number); ok && key.Equal(k) {
+			return k
+		}
+	}
+	return key
+}
 
 // String representation of the Object.
 func (obj HashTable) String() string {
